@@ -352,6 +352,23 @@ def quantified_membership(node):
     while isinstance(node, ast.UnaryOp) and isinstance(node.op, ast.Not):
         neg = not neg
         node = node.operand
+    if isinstance(node, ast.BoolOp) and len(node.values) == 2:
+        # the quantifier over a PAIR written out:  p[0] not in k and p[1] not in k   ==   all(j not in k for j in p)
+        parts = []
+        for v in node.values:
+            ineg = False
+            while isinstance(v, ast.UnaryOp) and isinstance(v.op, ast.Not):
+                ineg, v = not ineg, v.operand
+            if not (isinstance(v, ast.Compare) and len(v.ops) == 1 and isinstance(v.ops[0], (ast.In, ast.NotIn))
+                    and isinstance(v.left, ast.Subscript) and isinstance(v.left.slice, ast.Constant)):
+                return None
+            if isinstance(v.ops[0], ast.NotIn):
+                ineg = not ineg
+            parts.append((ineg, U(v.left.value), v.left.slice.value, U(v.comparators[0])))
+        if len({(a, x, b) for a, x, _, b in parts}) == 1 and sorted(i for _, _, i, _ in parts) == [0, 1]:
+            ineg, A, _, B = parts[0]
+            return (neg, "all" if isinstance(node.op, ast.And) else "any", ineg, A, B)
+        return None
     if not (isinstance(node, ast.Call) and isinstance(node.func, ast.Name) and node.func.id in ("any", "all")
             and len(node.args) == 1 and isinstance(node.args[0], (ast.GeneratorExp, ast.ListComp))):
         return None
